@@ -92,7 +92,7 @@ class ConnDesign(Elaboratable):
             # Connect halves that nobody calls: everything simultaneous with them (transitively) can never run.
             # shape "mixed": W writes c0 (c0.read uncalled) and c1; W2 writes c1; R reads c1.
             # shape "open": SRC -c0-> S1 -c1-> ... -c(n-1)-> (no reader); "rev": the Connects are created last-first
-            n = 2 if cfg["shape"] == "mixed" else cfg["n"]
+            n = 2 if cfg["shape"] == "mixed" else (1 if cfg["shape"] == "live" else cfg["n"])
             order = list(range(n))[::-1] if cfg.get("rev") else list(range(n))
             conns = {}
             for i in order:
@@ -100,6 +100,8 @@ class ConnDesign(Elaboratable):
                 m.submodules[f"c{i}"] = conns[i]
             if cfg["shape"] == "mixed":
                 plan = [("W", [0, 1], None), ("W2", [1], None), ("R", [], 1)]
+            elif cfg["shape"] == "live":          # nothing dead: W -c0-> R
+                plan = [("W", [0], None), ("R", [], 0)]
             else:
                 plan = [(f"S{k}", [k], (k - 1) if k else None) for k in range(n)]
             for k, (name, writes, reads) in enumerate(plan):
@@ -110,6 +112,17 @@ class ConnDesign(Elaboratable):
                     d = arg if reads is None else (conns[reads].read(m).d ^ arg)
                     for w in writes:
                         conns[w].write(m, d=d)
+                    if cfg.get("nested") and k == 0:
+                        # a plain nested transaction in the first stage, calling an own method
+                        xm = Method(name="XN")
+
+                        @def_method(m, xm)
+                        def _():
+                            pass
+                        nt = Transaction(name="N")
+                        with nt.body(m, ready=self.sig("nrdy")):
+                            xm(m)
+                        self.obs += [("nested.run", nt.run), ("XN.run", xm.run)]
                 self.obs.append((f"run{k}", t.run))
             for i in range(n):
                 self.obs += [(f"c{i}.read.run", conns[i].read.run), (f"c{i}.write.run", conns[i].write.run)]
@@ -277,6 +290,12 @@ class ConnH(CondH):
             for k in range(len(d.plan)):
                 if O[f"run{k}"] and not I[f"rdy{k}"]:
                     V.append(f"caller.enabled: {d.plan[k][0]} runs while not ready")
+            if cfg.get("nested"):
+                if O["nested.run"] and not (O["run0"] and I["nrdy"]):
+                    V.append(f"nested.without_parent: the transaction nested in {d.plan[0][0]} runs (its callee run={O['XN.run']}) "
+                             f"while {d.plan[0][0]}.run={O['run0']}")
+                if O["XN.run"] != O["nested.run"]:
+                    V.append(f"nested.callee: XN.run={O['XN.run']} nested.run={O['nested.run']}")
             if any(O[f"run{k}"] for k in range(len(d.plan))):
                 self.count("nt_pair_runs")
             elif any(I[f"rdy{k}"] for k in range(len(d.plan))):
